@@ -1,5 +1,9 @@
-"""Fresh-process reference for C14: computes the signature of one Spec in a new
-interpreter (nothing was built or solved before it)."""
+"""Child-process helpers.
+
+signature (C14): fresh-interpreter reference - computes the signature of one Spec in a new interpreter.
+solve (C15)    : runs a list of solver configurations on one Spec, one JSON line per configuration, flushed,
+                 so that a native crash of libz3 in one configuration loses nothing else.
+"""
 import json
 import sys
 
@@ -8,14 +12,21 @@ from rtmon import instrument as ins
 ins.install()
 ins.assert_repo_under_test()
 
-from rtmon.monitors import c14  # noqa: E402
-
 
 def main():
     with open(sys.argv[1]) as f:
         job = json.load(f)
-    sig = c14.signature(job["spec"], job["cands"])
-    print("SIGNATURE " + json.dumps(sig))
+    kind = job.get("kind", "signature")
+    if kind == "signature":
+        from rtmon.monitors import c14
+        sig = c14.signature(job["spec"], job["cands"])
+        print("SIGNATURE " + json.dumps(sig))
+        return
+    from rtmon.monitors import c15
+    for idx, cfg in job["configs"]:
+        print("START " + json.dumps(idx), flush=True)
+        out = c15.solve_one(job["spec"], cfg, job["rng"] + idx)
+        print("RESULT " + json.dumps([idx, out], default=str), flush=True)
 
 
 if __name__ == "__main__":
